@@ -95,8 +95,10 @@ def run_history(job):
             ap = os.path.join(home, ".copia", "archive", pair + ".json")
             if os.path.exists(ap):
                 raw = open(ap, "rb").read()
-                k = rng.randrange(6)
-                if k == 0:
+                k = rng.randrange(7)
+                if k == 6:
+                    open(ap, "wb").write(raw.replace(b'"format_version": 1,', b''))
+                elif k == 0:
                     os.unlink(ap)
                 elif k == 1:
                     open(ap, "wb").write(raw[:rng.randrange(max(1, len(raw)))])
